@@ -206,7 +206,15 @@ def rule_tolerance(ck):
     param = f.positional_params[0]
     for r in rets:
         o = ck.ob('C02-D2.tol', f, r.value, r)
-        p = N.nf(ex.expand(r.value))
+        e = ex.expand(r.value)
+        # `numpy.where(numpy.isfinite(t), t, 0)`: the tolerance t for finite values, none for infinite ones
+        finite_guard = False
+        es = e
+        if isinstance(es, ast.Call) and call_name(es) == 'numpy.where' and len(es.args) == 3 and isinstance(es.args[0], ast.Call) \
+                and call_name(es.args[0]) == 'numpy.isfinite' and const_value(es.args[2]) == 0:
+            finite_guard = True
+            e = es.args[1]
+        p = N.nf(e)
         if p.is_const():
             (o.ok('constant %s >= 0' % p.const_value()) if p.const_value() >= 0 else o.fail('negative constant tolerance'))
             continue
@@ -220,6 +228,10 @@ def rule_tolerance(ck):
             ok = has_abs and has_eps and not raw
         if ok:
             o.ok('|v| * eps with positive coefficient')
+            oo = ck.ob('C02-D2.finite', f, r.value, r)
+            (oo.ok('no tolerance for infinite values') if finite_guard else
+             oo.fail('the tolerance of an infinite value is infinite: for v = -inf the numerator v - a0 + tol(v) is inf - inf = nan, floor(nan) '
+                     'compares false with every bound and the index is garbage instead of -1 (out of range)'))
         else:
             o.fail('tolerance `%s` is not |v|*eps(v.dtype) with a positive coefficient: it can be negative, or is not scaled by the machine '
                    'epsilon of the value\'s own dtype (a float32 value carries float32 round-off), so a value on an edge can fall '
